@@ -28,20 +28,23 @@ VARIABLES l,        \* current log line
           t0,       \* log line of the current trace's Reset
           snapSeen, \* a level-9 file has been listed in this trace
           maxR,     \* highest replica position listed so far in this trace
-          stopped   \* Store.Close has returned without error in this trace
-vars == <<l, t0, snapSeen, maxR, stopped>>
+          stopped,  \* Store.Close has returned without error in this trace
+          hz        \* shapes of known findings (known_findings.json "signature") seen so far in this trace
+vars == <<l, t0, snapSeen, maxR, stopped, hz>>
 
 cur  == Log[l]
 IsStep == cur.op # "Reset"
 FilesAt(files, lvl) == {files[j] : j \in {k \in 1..Len(files) : files[k][1] = lvl}}
 HasSnap(e) == FilesAt(e.remote, 9) # {}
 
-Init == l = 1 /\ t0 = 1 /\ snapSeen = FALSE /\ maxR = 0 /\ stopped = FALSE
+Init == l = 1 /\ t0 = 1 /\ snapSeen = FALSE /\ maxR = 0 /\ stopped = FALSE /\ hz = {}
 Next ==
   /\ l < Len(Log) /\ l' = l + 1
   /\ LET e == Log[l + 1] IN
-     IF e.op = "Reset" THEN t0' = l + 1 /\ snapSeen' = FALSE /\ maxR' = 0 /\ stopped' = FALSE
+     IF e.op = "Reset" THEN t0' = l + 1 /\ snapSeen' = FALSE /\ maxR' = 0 /\ stopped' = FALSE /\ hz' = {}
      ELSE /\ t0' = t0
+          \* S2: local level-0 files vanished / were truncated while litestream was running (its position may fall behind the replica)
+          /\ hz' = hz \cup (IF e.op = "LocalLoss" /\ e.res = "ok" THEN {"S2"} ELSE {})
           /\ snapSeen' = (snapSeen \/ HasSnap(Log[l]))
           /\ maxR' = IF Log[l].rpos > maxR THEN Log[l].rpos ELSE maxR
           /\ stopped' = (stopped \/ (e.op = "DaemonStop" /\ e.res = "ok"))
@@ -105,7 +108,8 @@ D_NoLeakAfterStop_ == (IsStep /\ stopped) => (~cur.hasRead /\ ~cur.handles /\ cu
 D_SourceNotPinned_ == (IsStep /\ stopped /\ cur.op = "AppCheckpoint" /\ cur.arg = "TRUNCATE") => cur.res # "busy"
 D_NoPanic_ == cur.op # "Panic"
 
-V(name, ok) == ok \/ PrintT(<<"VERDICT", name, l, cur.t, cur.i>>)
+V(name, ok) == ok \/ (/\ PrintT(<<"VERDICT", name, l, cur.t, cur.i>>)
+                      /\ \A h \in hz : PrintT(<<"HAZARD", h, l, cur.t, cur.i>>))
 D_AckRestoreEqualsSource == V("D_AckRestoreEqualsSource", D_AckRestoreEqualsSource_)
 D_FinalRestoreEqualsSource == V("D_FinalRestoreEqualsSource", D_FinalRestoreEqualsSource_)
 D_EveryTxidIsACommittedState == V("D_EveryTxidIsACommittedState", D_EveryTxidIsACommittedState_)
